@@ -9,7 +9,7 @@ Boundary events (armed from the start of pytest_sessionfinish, which runs before
   open-r <file>   a test file is opened for reading        open-w <file>   ... for writing (truncates)
   rename <a> <b>  os.rename (persist of an external)       remove <file>   os.remove / os.unlink (trim)
   fmt             one invocation of the formatter: subprocess of the format-command or black.format_str
-A fault "exception" makes that very call raise RuntimeError; "crash" ends the process with os._exit(137) at the
+A fault "exception" makes that very call raise (PermissionError at file-system calls, else RuntimeError); "crash" ends the process with os._exit(137) at the
 boundary; "write-*" lets the open succeed and fails the first write() on the returned file object.  Formatter
 faults replace the result of that invocation.
 """
@@ -49,6 +49,9 @@ def _boundary(kind, *what):
     if fault == "crash":
         os._exit(137)
     if fault == "exception":
+        if kind in ("rename", "remove", "open-r", "open-w"):
+            # what a failing file-system call really raises
+            raise PermissionError(13, "verif: injected fault at boundary %d (%s)" % (n, kind))
         raise RuntimeError("verif: injected fault at boundary %d (%s)" % (n, kind))
     return fault
 
